@@ -57,6 +57,33 @@ func (r *byteReader) ReadByte() (byte, error) {
 	}
 }
 
+// ExactReader returns a Reader that reads from r and stops with io.EOF after exactly n bytes.
+// Unlike io.LimitReader it reports io.ErrUnexpectedEOF when r ends before n bytes were read,
+// so a frame cut short by a disconnect is never mistaken for a complete one.
+func ExactReader(r io.Reader, n int64) io.Reader {
+	return &exactReader{r: r, n: n}
+}
+
+type exactReader struct {
+	r io.Reader
+	n int64 // bytes remaining
+}
+
+func (e *exactReader) Read(p []byte) (n int, err error) {
+	if e.n <= 0 {
+		return 0, io.EOF
+	}
+	if int64(len(p)) > e.n {
+		p = p[:e.n]
+	}
+	n, err = e.r.Read(p)
+	e.n -= int64(n)
+	if io.EOF == err && e.n > 0 {
+		err = io.ErrUnexpectedEOF
+	}
+	return
+}
+
 // ToReader wrap message to io.Reader
 func ToReader(message interface{}) (io.Reader, error) {
 
